@@ -285,6 +285,12 @@ class SSH_Socket(ReadBuf, WriteBuf):
                     return -1, b'invalid ssh packet (block size)'
                 self.__outputbuffer.fail('[exception] invalid ssh packet (block size)').write()
                 sys.exit(exitcodes.CONNECTION_ERROR)
+            # A packet must at least carry its message type (plus, for SSH-1, the trailing checksum); this also rejects a padding length that exceeds the packet length.
+            if payload_length < (5 if sshv == 1 else 1):
+                if not exit_on_error:
+                    return -1, b'invalid ssh packet (empty payload)'
+                self.__outputbuffer.fail('[exception] invalid ssh packet (empty payload)').write()
+                sys.exit(exitcodes.CONNECTION_ERROR)
             self.ensure_read(payload_length)
             if sshv == 1:
                 payload = self.read(payload_length - 4)
